@@ -73,7 +73,7 @@ def extract(repo):
 
     def site(name, lo, hi, s):
         return "def %s : Site := { idxLo := %d, idxHi := %d, startSlice := %s, endSlice := %s, endAddsStart := %s }" % (name, lo, hi, s[0], s[1], s[2])
-    out = ["namespace SkimModel.Generated.DisplayFns", "",
+    out = ["set_option linter.unusedVariables false", "namespace SkimModel.Generated.DisplayFns", "",
            "inductive Bound | open | start | stop", "  deriving DecidableEq, Repr", "",
            "/-- a matched char index `idx` becomes the fragment `(idx + idxLo, idx + idxHi)`; a byte range `(start, end)` becomes",
            "    `(chars of text[a..b], [that +] chars of text[c..d])`; `Matches::None` yields no fragment (checked by the translator) -/",
@@ -82,7 +82,27 @@ def extract(repo):
            "/-- `From<DisplayContext> for AnsiString` (src/lib.rs) with `From<(&str, &[usize], Attr)>` (src/ansi.rs) -/",
            site("fromContext", lo1, hi1, s1), "",
            "/-- `DefaultSkimItem::display` (src/helper/item.rs) -/", site("displayItem", lo2, hi2, s2), "",
-           "end SkimModel.Generated.DisplayFns", ""]
+           ]
+    # AnsiStringIterator::next: which characters carry the current fragment's attribute
+    i = ansi.find("impl<'a> Iterator for AnsiStringIterator<'a>")
+    nb = norm(R.fn_body(open(os.path.join(repo, "src", "ansi.rs")).read()[open(os.path.join(repo, "src", "ansi.rs")).read().find("impl<'a> Iterator for AnsiStringIterator<'a>"):], "next")[0]) if i >= 0 else ""
+    m = re.fullmatch(r"match self\.chars_iter\.next\(\) \{ Some\(\(char_idx, char\)\) => \{ "
+                     r"loop \{ if self\.fragment_idx >= self\.fragments\.len\(\) \{ break; \} "
+                     r"let \(_attr, \(_start, end\)\) = self\.fragments\[self\.fragment_idx\]; "
+                     r"if ([^{]*?) \{ break; \} else \{ self\.fragment_idx \+= 1; \} \} "
+                     r"let \(attr, \(start, end\)\) = if self\.fragment_idx >= self\.fragments\.len\(\) \{ "
+                     r"\(Attr::default\(\), \(char_idx as u32, 1 \+ char_idx as u32\)\) \} else \{ self\.fragments\[self\.fragment_idx\] \}; "
+                     r"if ([^{]*?) \{ Some\(\(char, attr\)\) \} else \{ Some\(\(char, Attr::default\(\)\)\) \} \} None => None, \}", nb)
+    if not m:
+        raise R.Unsupported("AnsiStringIterator::next: not `skip fragments that ended; pick the current one or a default; attr iff inside`")
+    L = {"char_idx": "Nat", "start": "Nat", "end": "Nat"}
+    stays = R.translate(m.group(1), {}, locals_=L)
+    hit = R.translate(m.group(2), {}, locals_=L)
+    out += ["/-- `AnsiStringIterator::next`: the fragment at `fragment_idx` stays the current one (the skipping loop breaks) -/",
+            "def iterStays (char_idx start end_v : Nat) : Bool :=", "  decide %s" % stays[0], "",
+            "/-- ... and the character carries its attribute -/",
+            "def iterHit (char_idx start end_v : Nat) : Bool :=", "  decide %s" % hit[0], "",
+            "end SkimModel.Generated.DisplayFns", ""]
     return "\n".join(out)
 
 
